@@ -31,8 +31,10 @@ import (
 )
 
 type c15Beh struct {
-	Kind string `json:"kind"` // accept reject rejectplain drop refuse
-	Code int    `json:"code,omitempty"`
+	// socket backends: accept reject rejectplain drop refuse
+	// http backends (c15_http.go): accept reject rejectplain nonjson badjson status rcfail remoteerr hangup drop refuse
+	Kind string `json:"kind"`
+	Code int    `json:"code,omitempty"` // reject: livestatus code, status: http status, rcfail: rc
 	Msg  string `json:"msg,omitempty"`
 }
 
@@ -42,6 +44,9 @@ type c15PeerIn struct {
 	HasData  bool     `json:"hasdata"`
 	Stale    bool     `json:"stale"`
 	KillPool bool     `json:"killpool"` // backend closes lmd's pooled connections before the session (not modelled: must not matter)
+	// "" = Livestatus unix socket, "http" = Thruk API (scripted http server on a loopback address)
+	Transport string `json:"transport,omitempty"`
+	Thruk     string `json:"thruk,omitempty"` // version the http backend reports (< 2.23: json envelope, else raw answers)
 	Script   []c15Beh `json:"script"`
 	Resolve  []string `json:"resolve"`
 }
@@ -88,6 +93,8 @@ type c15PeerRt struct {
 	in        *c15PeerIn
 	peer      *Peer
 	backend   *vBackend
+	hbackend  *c15HTTPBackend // http transport only
+	httpOK    bool            // environment's copy of Peer.lastHTTPRequestSuccessful (when to expect a connect test)
 	scriptPos int
 	resolvPos int
 	errSeen   int64 // increments of peer.errorCount already attributed to an attempt
@@ -111,6 +118,17 @@ func (rt *c15PeerRt) apply() {
 	if rt.scriptPos < len(rt.in.Script) {
 		beh = rt.in.Script[rt.scriptPos]
 	}
+	if rt.hbackend != nil {
+		switch beh.Kind {
+		case "refuse", "drop":
+			rt.hbackend.SetMode(beh.Kind)
+		default:
+			rt.hbackend.SetBehaviour(beh)
+			rt.hbackend.SetMode("ok")
+		}
+
+		return
+	}
 	switch beh.Kind {
 	case "refuse":
 		rt.backend.SetMode(vModeRefuse)
@@ -133,15 +151,41 @@ func (rt *c15PeerRt) advance() {
 	kind := rt.cur()
 	rt.scriptPos++
 	rt.callAttempts++
-	if kind != "refuse" || rt.callAttempts >= 2 {
-		// only a refused first attempt keeps SendCommandsWithRetry going
+	// only a refused first attempt keeps SendCommandsWithRetry going (http: only if a connect test was made)
+	retryable := kind == "refuse" && !(rt.hbackend != nil && rt.httpOK)
+	if !retryable || rt.callAttempts >= 2 {
 		rt.callDone = true
 	}
-	if kind == "rejectplain" {
+	if rt.hbackend != nil {
+		switch kind {
+		case "refuse", "drop", "hangup":
+			rt.httpOK = false
+		default:
+			rt.httpOK = true
+		}
+	}
+	if c15CountsAsError(kind) {
 		// lmd will count this answer as an error once it has read it
 		rt.errSeen++
 	}
 	rt.apply()
+}
+
+// c15CountsAsError: answers after which Peer.Query calls setNextAddrFromErr once (errorCount+1), seen by the backend.
+func c15CountsAsError(kind string) bool {
+	switch kind {
+	case "rejectplain", "nonjson", "badjson", "status", "rcfail", "remoteerr", "hangup":
+		return true
+	}
+
+	return false
+}
+
+// unseen: the attempt does not reach the backend's request handler, the environment learns about it from errorCount.
+func (rt *c15PeerRt) unseen() bool {
+	kind := rt.cur()
+
+	return kind == "refuse" || (rt.hbackend != nil && kind == "drop")
 }
 
 func c15Status(name string) PeerStatus {
@@ -184,12 +228,17 @@ func (rt *c15PeerRt) poll(targeted bool) {
 	rt.mu.Lock()
 	defer rt.mu.Unlock()
 	// a refused attempt calls setNextAddrFromErr twice (tryConnection, then Query); the first call is enough to know
+	// (http: the failing POST alone counts once; the connect test is only made after a failed exchange)
 	cnt := rt.peer.errorCount.Load()
-	for rt.cur() == "refuse" && cnt > rt.errSeen {
-		rt.errSeen += 2
+	for rt.unseen() && cnt > rt.errSeen {
+		if rt.hbackend != nil && (rt.httpOK || rt.cur() == "drop") {
+			rt.errSeen++
+		} else {
+			rt.errSeen += 2
+		}
 		rt.advance()
 	}
-	if rt.cur() != "refuse" && cnt > rt.errSeen {
+	if !rt.unseen() && cnt > rt.errSeen {
 		rt.errSeen = cnt
 	}
 	if !targeted || rt.callDone {
@@ -226,10 +275,25 @@ func (rt *c15PeerRt) poll(targeted bool) {
 var (
 	c15ReHeader = regexp.MustCompile(`^\d{3} +\d+$`)
 	c15ReErr    = regexp.MustCompile(`^(\d+): (.*)$`)
+	// texts of the http transport's errors, mapped to classes
+	c15ReHTTPStatus = regexp.MustCompile(`^http request failed: (\d+)`)
+	c15ReRemote     = regexp.MustCompile(`^remote site returned rc: (-?\d+) - (.*)$`)
 )
 
 func c15CanonMsg(msg string) string {
 	switch {
+	case strings.HasPrefix(msg, "http error:"):
+		return "HTTPERR"
+	case strings.HasPrefix(msg, "json error:"):
+		return "JSONERR"
+	case strings.HasPrefix(msg, "remote site too old"):
+		return "TOOOLD"
+	case c15ReHTTPStatus.MatchString(msg):
+		return "HTTPSTATUS " + c15ReHTTPStatus.FindStringSubmatch(msg)[1]
+	case c15ReRemote.MatchString(msg):
+		m := c15ReRemote.FindStringSubmatch(msg)
+
+		return "REMOTE rc=" + m[1] + " " + m[2]
 	case strings.Contains(msg, "retries exceeded"):
 		return "RETRIES"
 	case strings.Contains(msg, "timed out"):
@@ -312,6 +376,9 @@ func c15RunCase(idx int, in *c15Input) *c15Obs {
 			// let goroutines that still wait in SendCommandsWithRetry finish
 			rt.peer.peerState.Set(PeerStatusDown)
 			rt.backend.Close()
+			if rt.hbackend != nil {
+				rt.hbackend.Close()
+			}
 		}
 	}()
 	now := currentUnixTime()
@@ -319,8 +386,15 @@ func c15RunCase(idx int, in *c15Input) *c15Obs {
 		pin := &in.Peers[i]
 		backend := newVBackend(fmt.Sprintf("c15-%d-%d", idx, i))
 		backend.SetDataset(vDefaultDataset(newVRand(uint64(idx*7+i)), 1, 1))
-		peer := vNewPeer(lmd, pin.ID, []string{backend.Addr()}, nil)
-		rt := &c15PeerRt{in: pin, peer: peer, backend: backend}
+		rt := &c15PeerRt{in: pin, backend: backend}
+		addr := backend.Addr()
+		if pin.Transport == "http" {
+			rt.hbackend = newC15HTTPBackend(idx, i, pin.Thruk, backend)
+			addr = rt.hbackend.Addr()
+			rt.httpOK = pin.State != "pending" // InitAllTables ends with a successful exchange
+		}
+		peer := vNewPeer(lmd, pin.ID, []string{addr}, nil)
+		rt.peer = peer
 		rts = append(rts, rt)
 		if pin.State != "pending" {
 			if err := peer.InitAllTables(ctx); err != nil {
@@ -365,12 +439,18 @@ func c15RunCase(idx int, in *c15Input) *c15Obs {
 			peer.closeConnectionPool()
 		}
 		backend.ResetLogs()
-		backend.OnCommandConn = func() {
+		onCommand := func() {
 			rt.mu.Lock()
 			defer rt.mu.Unlock()
-			if rt.cur() != "refuse" {
+			if !rt.unseen() {
 				rt.advance()
 			}
+		}
+		if rt.hbackend != nil {
+			rt.hbackend.ResetLogs()
+			rt.hbackend.SetOnCommand(onCommand)
+		} else {
+			backend.OnCommandConn = onCommand
 		}
 		rt.apply()
 	}
@@ -498,7 +578,11 @@ func c15RunCase(idx int, in *c15Input) *c15Obs {
 	for _, rt := range rts {
 		po := c15PeerObs{status: status[rt.in.ID]}
 		byConn := map[int]int{}
-		for _, e := range rt.backend.Commands() {
+		entries := rt.backend.Commands()
+		if rt.hbackend != nil {
+			entries = rt.hbackend.Commands() // one group per POST
+		}
+		for _, e := range entries {
 			pos, ok := byConn[e.Conn]
 			if !ok {
 				pos = len(po.log)
@@ -519,6 +603,11 @@ func c15RunCase(idx int, in *c15Input) *c15Obs {
 		rt.backend.OnCommandConn = nil
 		rt.backend.SetCommandMode(vCmdAccept, "")
 		rt.backend.SetMode(vModeOK)
+		if rt.hbackend != nil {
+			rt.hbackend.SetOnCommand(nil)
+			rt.hbackend.SetBehaviour(c15Beh{Kind: "accept"})
+			rt.hbackend.SetMode("ok")
+		}
 		st := rt.peer.peerState.Get()
 		if sawTimeout && (st == PeerStatusWarning || st == PeerStatusPending) {
 			// a SendCommandsWithRetry may still be waiting (202): end it before probing
@@ -581,6 +670,34 @@ func c15Coq(idx int, in *c15Input, obs *c15Obs) string {
 		p := &in.Peers[i]
 		script := []string{}
 		for _, b := range p.Script {
+			if p.Transport == "http" {
+				// the answers that are errors without being `code: msg` are RejectPlain with the class of the
+				// text lmd reports (c15CanonMsg); a broken exchange is HttpBroken
+				switch b.Kind {
+				case "nonjson":
+					script = append(script, "RejectPlain "+coqStr(b.Msg))
+				case "badjson":
+					script = append(script, "RejectPlain "+coqStr("JSONERR"))
+				case "status":
+					script = append(script, "RejectPlain "+coqStr(fmt.Sprintf("HTTPSTATUS %d", b.Code)))
+				case "rcfail":
+					script = append(script, "RejectPlain "+coqStr(fmt.Sprintf("REMOTE rc=%d %s", b.Code, c15JSONString(b.Msg))))
+				case "remoteerr":
+					if strings.Contains(b.Msg, "t locate object method") {
+						script = append(script, "RejectPlain "+coqStr("TOOOLD"))
+					} else {
+						script = append(script, "RejectPlain "+coqStr("REMOTE rc=0 "+b.Msg))
+					}
+				case "hangup":
+					script = append(script, "HttpBroken true")
+				case "drop":
+					script = append(script, "HttpBroken false")
+				}
+				switch b.Kind {
+				case "nonjson", "badjson", "status", "rcfail", "remoteerr", "hangup", "drop":
+					continue
+				}
+			}
 			switch b.Kind {
 			case "reject":
 				script = append(script, fmt.Sprintf("Reject %d%%Z %s", b.Code, coqStr(b.Msg)))
@@ -598,8 +715,12 @@ func c15Coq(idx int, in *c15Input, obs *c15Obs) string {
 		for _, r := range p.Resolve {
 			resolve = append(resolve, c15StateCoq(r))
 		}
-		peers = append(peers, fmt.Sprintf("mkPeer %s %s %s %s %s %s %s [] [] false", coqStr(p.ID), c15StateCoq(p.State), coqBool(p.HasData),
-			coqBool(p.Stale), coqStr(c15InitialErr(p.State)), coqList(script), coqList(resolve)))
+		transport := "Socket"
+		if p.Transport == "http" {
+			transport = "(Http " + coqBool(p.State != "pending") + ")"
+		}
+		peers = append(peers, fmt.Sprintf("mkPeer %s %s %s %s %s %s %s [] [] false %s", coqStr(p.ID), c15StateCoq(p.State), coqBool(p.HasData),
+			coqBool(p.Stale), coqStr(c15InitialErr(p.State)), coqList(script), coqList(resolve), transport))
 	}
 	writes := []string{}
 	for i := range in.Writes {
@@ -643,7 +764,7 @@ func c15Coq(idx int, in *c15Input, obs *c15Obs) string {
 
 var c15IDs = []string{"a", "b2", "site-c"}
 
-func c15GenArgs(r *vRand) []byte {
+func c15GenArgs(r *vRand, utf8Only bool) []byte {
 	alphabet := []string{"a", "B", "7", ";", ";", " ", " ", "_", "-", ".", "/", "=", "\t", "\r", "ä", "€", " ", " ", "\u0085", "\xff", "\x80", "\xc3", "\"", "'", "\\", "%", "COMMAND ", "[", "]", ":", "\x00", "\x1b"}
 	n := r.intn(12)
 	if r.chance(1, 12) {
@@ -651,13 +772,22 @@ func c15GenArgs(r *vRand) []byte {
 	}
 	var sb strings.Builder
 	for range n {
-		sb.WriteString(vPick(r, alphabet))
+		piece := vPick(r, alphabet)
+		if utf8Only && !utf8.ValidString(piece) {
+			// the json envelope of the http transport cannot carry bytes that are not UTF-8
+			piece = "\u00ff"
+		}
+		sb.WriteString(piece)
 	}
 
 	return []byte(sb.String())
 }
 
 func c15GenCmd(r *vRand, peers []c15PeerIn) c15Item {
+	utf8Only := false
+	for i := range peers {
+		utf8Only = utf8Only || peers[i].Transport == "http"
+	}
 	names := []string{"SCHEDULE_FORCED_HOST_CHECK", "ACKNOWLEDGE_SVC_PROBLEM", "ADD_HOST_COMMENT", "x", "DEL_DOWNTIME"}
 	line := ""
 	if r.chance(1, 8) {
@@ -667,7 +797,7 @@ func c15GenCmd(r *vRand, peers []c15PeerIn) c15Item {
 	if !r.chance(1, 15) {
 		line += " " + vPick(r, names)
 		if !r.chance(1, 6) {
-			line += ";" + string(c15GenArgs(r))
+			line += ";" + string(c15GenArgs(r, utf8Only))
 		}
 	}
 	item := c15Item{Kind: "cmd", Hex: hex.EncodeToString([]byte(line)), KA: r.chance(1, 2)}
@@ -714,11 +844,56 @@ func c15GenBeh(r *vRand) c15Beh {
 	}
 }
 
+// c15GenBehHTTP: behaviour of the scripted Thruk backend for one POST / connection.
+func c15GenBehHTTP(r *vRand) c15Beh {
+	msgs := []string{"bad command", "Unknown command FOO", "x: y", "no such host 'ä'", "a"}
+	remote := []string{"ERROR: failed to connect to peer", "no backend available", "Can't locate object method \"x\"", "internal <error> & more"}
+	if verifEnv("VERIF_C15_BROKENPIPE", "") != "" {
+		// D-C15-2 (notes/C15.md): this answer makes HTTPQueryWithRetries POST the batch again
+		remote = append(remote, "ERROR: broken pipe.", "ERROR: broken pipe. at /usr/share/thruk/lib/Thruk/Backend/Peer.pm line 1")
+	}
+	switch n := r.intn(100); {
+	case n < 30:
+		return c15Beh{Kind: "accept"}
+	case n < 42:
+		return c15Beh{Kind: "reject", Code: vPick(r, []int{400, 404, 452, 500, 403}), Msg: vPick(r, msgs)}
+	case n < 46:
+		return c15Beh{Kind: "rejectplain", Msg: vPick(r, []string{"garbled answer", "ERROR"})}
+	case n < 56:
+		return c15Beh{Kind: "rcfail", Code: vPick(r, []int{1, 3, 255, -1, 500}), Msg: vPick(r, []string{"remote command failed", "no such peer", "ERROR: broken pipe.", "x"})}
+	case n < 64:
+		return c15Beh{Kind: "remoteerr", Msg: vPick(r, remote)}
+	case n < 71:
+		return c15Beh{Kind: "status", Code: vPick(r, []int{500, 502, 503, 404, 401, 403})}
+	case n < 76:
+		return c15Beh{Kind: "nonjson", Msg: vPick(r, []string{"<html><body>login</body></html>", "OK - but not what you think", "[broken"})}
+	case n < 79:
+		return c15Beh{Kind: "badjson"}
+	case n < 86:
+		return c15Beh{Kind: "hangup"}
+	case n < 90:
+		return c15Beh{Kind: "drop"}
+	default:
+		return c15Beh{Kind: "refuse"}
+	}
+}
+
 func c15Gen(r *vRand, slowAllowed bool) *c15Input {
 	in := &c15Input{KeepAlive: r.chance(1, 3)}
 	np := 1 + r.intn(3)
+	// about a third of the cases talk to one of the backends through the Thruk http api
+	httpPeer := -1
+	if r.chance(1, 3) {
+		httpPeer = r.intn(np)
+		// most error answers of the http transport leave the backend in warning: these cases have their own budget
+		slowAllowed = true
+	}
 	for i := range np {
 		p := c15PeerIn{ID: c15IDs[i]}
+		if i == httpPeer {
+			p.Transport = "http"
+			p.Thruk = vPick(r, []string{"2.20", "3.12"})
+		}
 		switch n := r.intn(100); {
 		case n < 55:
 			p.State, p.HasData = "up", !r.chance(1, 20)
@@ -736,6 +911,9 @@ func c15Gen(r *vRand, slowAllowed bool) *c15Input {
 		p.Stale = r.chance(1, 4)
 		for range r.intn(4) {
 			beh := c15GenBeh(r)
+			if p.Transport == "http" {
+				beh = c15GenBehHTTP(r)
+			}
 			p.Script = append(p.Script, beh)
 			if beh.Kind == "refuse" && r.chance(2, 5) {
 				// the retry fails as well
@@ -757,7 +935,7 @@ func c15Gen(r *vRand, slowAllowed bool) *c15Input {
 			}
 			script := []c15Beh{}
 			for _, b := range p.Script {
-				if b.Kind != "refuse" && b.Kind != "rejectplain" {
+				if !c15SlowKind(b.Kind, p.Transport) {
 					script = append(script, b)
 				}
 			}
@@ -806,6 +984,25 @@ func c15Gen(r *vRand, slowAllowed bool) *c15Input {
 	return in
 }
 
+// c15SlowKind: behaviours after which lmd sleeps (retry) or leaves the backend in a waiting state.
+func c15SlowKind(kind, transport string) bool {
+	if kind == "refuse" || c15CountsAsError(kind) {
+		return true
+	}
+
+	return transport == "http" && kind == "drop"
+}
+
+func c15HasHTTP(in *c15Input) bool {
+	for i := range in.Peers {
+		if in.Peers[i].Transport == "http" {
+			return true
+		}
+	}
+
+	return false
+}
+
 // c15Slow estimates whether lmd will sleep while handling the case.
 func c15Slow(in *c15Input) bool {
 	for i := range in.Peers {
@@ -814,7 +1011,7 @@ func c15Slow(in *c15Input) bool {
 			return true
 		}
 		for _, b := range p.Script {
-			if b.Kind == "refuse" || b.Kind == "rejectplain" {
+			if c15SlowKind(b.Kind, p.Transport) {
 				return true
 			}
 		}
@@ -829,6 +1026,9 @@ func c15Main(args []string) int {
 		"control characters, leading/trailing unicode white space; Backends header: none/subset/unknown/duplicate; KeepAlive on/off) each ended by a GET or by a half close; "+
 		"1..3 peers in forced states up/syncing/warning/down/broken/pending with/without cached data, stale or fresh lastOnline, backend behaviour per connection attempt "+
 		"accept/reject(code: msg)/reject without colon/drop/refuse, scripted status changes ending a wait. About a third of the cases make lmd wait (1s polls). "+
+		"About a third of the cases connect one of the peers through the Thruk http api to a scripted http server (old json envelope / raw answers), "+
+		"behaviour per POST accept/reject/text without colon/non-json body/truncated json/status != 200/json with rc != 0/remote error text/"+
+		"hangup after the request was read/connection closed at accept/refused; argument bytes are valid UTF-8 in these cases. "+
 		"non-trivial: at least one command reaches SendCommands; distinct by input")
 	inputs := []*c15Input{}
 	if flags.replay != "" {
@@ -838,7 +1038,7 @@ func c15Main(args []string) int {
 		slowBudget := flags.n / 3
 		for range flags.n {
 			in := c15Gen(rnd.fork(), slowBudget > 0)
-			if c15Slow(in) {
+			if c15Slow(in) && !c15HasHTTP(in) {
 				slowBudget--
 			}
 			inputs = append(inputs, in)
@@ -895,8 +1095,18 @@ func c15Main(args []string) int {
 		}
 		for _, p := range in.Peers {
 			meta.count("state=" + p.State)
+			transport := "socket"
+			if p.Transport == "http" {
+				transport = "http"
+				meta.count("thruk=" + p.Thruk)
+			}
+			meta.count("transport=" + transport)
 			for _, b := range p.Script {
-				meta.count("behaviour=" + b.Kind)
+				if transport == "http" {
+					meta.count("http-behaviour=" + b.Kind)
+				} else {
+					meta.count("behaviour=" + b.Kind)
+				}
 			}
 		}
 		for _, p := range results[i].peers {
